@@ -115,6 +115,12 @@ TINY = (5e-324, 1e-310, 1e-200, 1e-160, 1e-100, 1e-30)
 
 
 def approach_observers(kind, p):
+    if p.get("degenerate"):
+        return np.zeros((0, 3))
+    return _approach_observers(kind, p)
+
+
+def _approach_observers(kind, p):
     """second family (added after the near-edge / near-wire defects): every special coordinate approached on a ladder of offsets from a few ulp to 1e-6
     relative, and absolute tiny / subnormal offsets from coordinates that are 0"""
     pts = []
@@ -186,6 +192,8 @@ def approach_observers(kind, p):
 
 def special_observers(kind, p):
     """observer sets (local frame) exactly on and within 2 ulp of every special set of the geometry"""
+    if p.get("degenerate"):
+        return np.array([(1.0, 2.0, 3.0), (0.3, 0.2, 0.1), (0.5, 0.0, 0.0), (-4.0, 0.1, 2.0)])  # a zero-size source: generic observers
     pts = []
     far = [1e3, 1e6, 1e12]
     if kind == "Cuboid":
@@ -284,6 +292,10 @@ def configs():
                 ("Circle", dict(diameter=2.0, exc=e)), ("Circle", dict(diameter=0.0, exc=e)),
                 ("Polyline", dict(vertices=[(0, 0, 0), (1, 1, 1), (2, 2, 3)], exc=e)), ("Polyline", dict(vertices=[(0, 0, 0), (0, 0, 0), (1, 0, 0)], exc=e)),
                 ("Dipole", dict(exc=e))]
+    e = excs[0]
+    # zero-size bodies made of triangles: zero-area Triangle (all vertices equal / collinear), zero-volume Tetrahedron (coplanar / all equal)
+    out += [("Triangle", dict(vertices=[(0, 0, 0)] * 3, exc=e, degenerate=True)), ("Triangle", dict(vertices=[(0, 0, 0), (1, 0, 0), (2, 0, 0)], exc=e, degenerate=True)),
+            ("Tetrahedron", dict(vertices=[(0, 0, 0)] * 4, exc=e, degenerate=True)), ("Tetrahedron", dict(vertices=[(0, 0, 0), (1, 0, 0), (0, 1, 0), (1, 1, 0)], exc=e, degenerate=True))]
     return out
 
 
@@ -454,6 +466,8 @@ def region_match(k, b):
     """is the failing case b = (kind, params, observer, field, message) inside the recorded region of the known finding k?"""
     reg = k.get("region")
     if not reg or b[2] is None or reg["kind"] != b[0]:
+        return False
+    if bool(reg.get("degenerate")) != bool(b[1].get("degenerate")):
         return False
     if reg.get("dimension_aspect_min"):
         d = np.array(b[1]["dimension"], dtype=float)
